@@ -17,7 +17,7 @@ import (
 // well-formed digest. SHA-256 of symbolic bytes is an uninterpreted function,
 // so whether the written bytes hash to verifD is the solver's choice and both
 // outcomes are explored.
-const verifD = "3a7bd3e2360a3d29eea436fcfb7e44c735d117c42d1c1835420b6b9942dd4f1b"
+var verifD = "3a7bd3e2360a3d29eea436fcfb7e44c735d117c42d1c1835420b6b9942dd4f1b"
 
 func verifCAS(mem bool, maxSize uint64) *CAStore {
 	root := filepath.Join(verif.TempDir(), "c01")
@@ -75,7 +75,7 @@ func verifReaders(cas *CAStore, pieceLength int64) bool {
 			verif.Reach("metainfo-checked-against-content")
 			verif.Assert("metainfo-length", mi.Length() == int64(len(content)))
 			pl := mi.PieceLength()
-			verif.Assert("metainfo-piece-length", pl == pieceLength)
+			verif.Assert("metainfo-piece-length", pieceLength == 0 || pl == pieceLength)
 			n := int64(len(content))
 			want := 0
 			if n > 0 {
@@ -132,44 +132,85 @@ func verifWrite(cas *CAStore, path int, data []byte, size uint64, pieceLength in
 	}
 }
 
-// VerifDiskWritePaths: memory cache disabled, or enabled but too small for the
-// blob: every write path verifies before anything becomes visible.
-func VerifDiskWritePaths() {
-	maxLen := verif.Bound("blob-len", 2, 4)
-	n := verif.Len("len", 0, maxLen)
-	data := verif.Bytes("data", n)
-	size := uint64(verif.Len("claimed-size", 0, maxLen))
-	pieceLength := int64(verif.Len("piece-length", 1, 2))
-	mem := verif.Choice("mem", 2) == 1
-	// memory cache too small for the claimed size: falls back to disk
-	cas := verifCAS(mem, 0)
-	verif.Cover("mem-enabled-but-full", mem && size > 0)
-	path := verif.Choice("path", 3)
-	if mem && size == 0 {
-		// TryReserve(0) succeeds with MaxSize 0: that is the memory path.
-		verif.Assume(path != 2)
-	}
+// verifBlob is one symbolic write request: bytes, claimed size and piece length
+// (the latter two only matter on the refresh path).
+type verifBlob struct {
+	data        []byte
+	size        uint64
+	pieceLength int64
+}
 
-	matches := verifMatches(data)
-	verif.Assert("nothing-visible-initially", !verifReaders(cas, pieceLength))
-	err := verifWrite(cas, path, data, size, pieceLength)
+func verifSymBlob(tag string, path int) verifBlob {
+	maxLen := verif.Bound("blob-len", 2, 4)
+	b := verifBlob{pieceLength: 1}
+	b.data = verif.Bytes(tag+"data", verif.Len(tag+"len", 0, maxLen))
+	if path == 2 {
+		// the backend's Stat size is independent of what it then streams:
+		// equal, truncated or extended
+		b.size = uint64(verif.Len(tag+"claimed-size", 0, maxLen))
+		b.pieceLength = int64(verif.Len(tag+"piece-length", 1, 2))
+	}
+	return b
+}
+
+func verifWriteAndCheck(cas *CAStore, path int, b verifBlob) {
+	matches := verifMatches(b.data)
+	verif.Assert("nothing-visible-initially", !verifReaders(cas, b.pieceLength))
+	err := verifWrite(cas, path, b.data, b.size, b.pieceLength)
 	verif.Cover("write-accepted", err == nil)
 	verif.Cover("write-rejected", err != nil)
-	if err == nil {
-		verif.Assert("accepted-write-matches-name", matches)
-	} else {
-		verif.Assert("mismatching-or-failed-write-leaves-nothing-visible", !verifReaders(cas, pieceLength))
+	if err != nil {
+		verif.Assert("rejected-write-leaves-nothing-visible", !verifReaders(cas, b.pieceLength))
 		return
 	}
-	vis := verifReaders(cas, pieceLength)
-	verif.Assert("accepted-write-is-visible", vis)
+	verif.Assert("accepted-write-matches-name", matches)
+	verif.Assert("accepted-write-is-visible", verifReaders(cas, b.pieceLength))
+}
 
-	// a second write of other bytes under the same name must not replace them
-	data2 := verif.Bytes("data2", verif.Len("len2", 0, maxLen))
-	path2 := verif.Choice("path2", 3)
-	if mem && size == 0 {
-		verif.Assume(path2 != 2)
+// VerifDiskWritePaths: memory cache disabled; client upload, internal transfer
+// and backend refresh each verify the digest before anything becomes visible,
+// and what becomes visible (bytes, size, metainfo, listing) describes bytes
+// that hash to the name.
+func VerifDiskWritePaths() {
+	path := verif.Choice("path", 3)
+	b := verifSymBlob("", path)
+	verifWriteAndCheck(verifCAS(false, 0), path, b)
+}
+
+// VerifMemCacheFullFallsBackToDisk: memory cache enabled but without room for
+// the claimed size: the refresh goes through the verified disk path.
+func VerifMemCacheFullFallsBackToDisk() {
+	b := verifSymBlob("", 2)
+	maxSize := verif.Uint64("max-size")
+	verif.Assume(maxSize < b.size)
+	cas := verifCAS(true, maxSize)
+	verifWriteAndCheck(cas, 2, b)
+	verif.Assert("not-in-memory", !cas.CheckInMemCache(verifD))
+}
+
+// VerifSecondWriteKeepsName: a correct blob is cached; any further write under
+// the same name, through any path, leaves the readable content hashing to it.
+func VerifSecondWriteKeepsName() {
+	good := []byte("ab")
+	d, err := core.NewDigester().FromBytes(good)
+	if err != nil {
+		panic(err)
 	}
-	verifWrite(cas, path2, data2, size, pieceLength)
-	verifReaders(cas, pieceLength)
+	verifD = d.Hex()
+	mem := verif.Choice("mem", 2) == 1
+	cas := verifCAS(mem, 8)
+	if err := cas.CreateCacheFile(verifD, bytes.NewReader(good)); err != nil {
+		panic(err)
+	}
+	path := verif.Choice("path", 3)
+	b := verifSymBlob("second-", path)
+	verif.Assert("first-visible", verifReaders(cas, 0))
+	err = verifWrite(cas, path, b.data, b.size, b.pieceLength)
+	verif.Cover("second-write-error", err != nil)
+	verif.Cover("second-write-nil", err == nil)
+	verif.Assert("still-visible", verifReaders(cas, 0))
+	if mem {
+		cas.drainNext()
+		verif.Assert("still-visible-after-drain", verifReaders(cas, 0))
+	}
 }
